@@ -2,8 +2,12 @@
    Proved (Proofs/Renum.v): the change map is built completely before any line is touched, so a failing RENUM leaves the
    listing as it was; lines below old-start are not in the map; the j-th line at or above old-start is mapped to
    new-start + j*step, which is at most 65529; the renumbered listing is rebuilt by ordered insertion (C15's invariant).
-   NOT proved: that the text splice rewrites exactly the line-number operands and nothing else (checked by the C14
-   monitor, which re-parses every renumbered line and compares it with the original modulo the map). *)
+   Proved (Proofs/Splice.v): the rewriting of one line is a replacement of character ranges of its listed text, last range
+   first, and for ranges that follow one another the result is the text with exactly those ranges replaced -- every other
+   character is copied in place; a line without operands keeps its tokens; RENUM refuses a program with compile errors.
+   NOT proved: that the ranges the visitor collects are the operands' columns in ascending order (parser columns), and that
+   scanning the rewritten text gives back the other tokens unchanged (checked by the C14 monitor, which re-parses every
+   renumbered line and compares it with the original modulo the map). *)
 From BL Require Import Base.Prelude Lang.Token Mach.Listing Proofs.Renum.
 Local Open Scope N_scope.
 
@@ -38,3 +42,40 @@ Print Assumptions C14_assigns_in_order.
 Example C14_witness :
   renum_changes [(10, []); (20, []); (35, [])] 100 20 5 65530 100 [] = Ok [(20, 100); (35, 105)].
 Proof. vm_compute. reflexivity. Qed.
+
+(* ---- how a line is rewritten (Proofs/Splice.v) ---- *)
+From BL Require Import Lang.Token Lang.Ast Lang.Lex Lang.Parse Mach.Val Mach.Runtime Proofs.Splice.
+From Coq Require Import String.
+
+(* replacing the operand ranges of the listed text, last one first, gives the text with exactly those ranges replaced:
+   `rebuild` copies every other character in place (ranges that follow one another; `ordered`) *)
+Theorem C14_splice_is_rebuild : forall reps s pos, ordered pos reps (lenN s) ->
+  splice_all s reps = Ok (firstnN pos s ++ rebuild s pos reps).
+Proof. exact splice_is_rebuild. Qed.
+Print Assumptions C14_splice_is_rebuild.
+
+(* RENUM's treatment of one line is that splice over the operands its visitor found, followed by a fresh scan *)
+Theorem C14_renum_line_is_splice : forall ch l ast, parse (fst l) (snd l) = Ok ast -> flat_map (renum_visit ch) ast <> [] ->
+  line_renum ch l =
+  (do txt <- splice_all (tokens_str (snd l)) (flat_map (renum_visit ch) ast);
+   do lx <- lex txt;
+   Ok (match fst l with Some n => match ch_get ch n with Some n' => Some n' | None => Some n end | None => None end, snd lx)).
+Proof. exact renum_line_is_splice. Qed.
+Print Assumptions C14_renum_line_is_splice.
+
+(* a line without line-number operands keeps its tokens exactly *)
+Theorem C14_renum_line_without_operands : forall ch l ast, parse (fst l) (snd l) = Ok ast -> flat_map (renum_visit ch) ast = [] ->
+  line_renum ch l = Ok (match fst l with Some n => match ch_get ch n with Some n' => Some n' | None => Some n end | None => None end, snd l).
+Proof. exact renum_line_without_operands. Qed.
+Print Assumptions C14_renum_line_without_operands.
+
+(* RENUM refuses a program with compile-time errors and changes nothing (so no stored line fails to parse when it runs) *)
+Theorem C14_renum_refuses_faulty_program : forall r e es, r_entry r <= r_pc r -> ls_ind_errors (r_listing r) = e :: es ->
+  do_renum r = (r, Ok (EvErrors (e :: es))).
+Proof. exact renum_refuses_faulty_program. Qed.
+Print Assumptions C14_renum_refuses_faulty_program.
+
+Theorem C14_splice_example :
+  splice_all (s2l "GOTO 10:GOSUB 20")%string [((5, 7), 100); ((14, 16), 1000)] = Ok (s2l "GOTO 100:GOSUB 1000")%string.
+Proof. exact splice_example. Qed.
+Print Assumptions C14_splice_example.
